@@ -36,6 +36,19 @@ class S(vlib.Spec):
 
     def classify(self, code, case):
         base = {2: "C01-two-ids-one-name", 3: "C01-unparsable-go", 4: "C01-does-not-type-check", 5: "C01-exit0-without-output"}.get(code, "C01-code-%d" % code)
+        if case and case.get("kind") == "scope":
+            if code == 7:
+                dups = set()
+                for t in (case.get("declared") or {}).get("types", []):
+                    seen = set()
+                    for n in (t.get("fields") or []) + [m["name"] for m in (t.get("methods") or [])]:
+                        if n in seen:
+                            dups.add(n)
+                        seen.add(n)
+                if dups and dups <= {"InitDefault"}:
+                    return "C01-field-collides-with-unreserved-method:InitDefault"
+                return "C01-member-declared-twice:" + ",".join(sorted(dups))
+            return {6: "C01-identifier-declared-twice-in-package", 8: "C01-parameter-declared-twice"}.get(code, base)
         if case and case.get("kind") == "build":
             errs = " ".join(case.get("build_errors") or []) + " ".join(case.get("unparsable_files") or [])
             be = case.get("backend", "")
@@ -46,6 +59,8 @@ class S(vlib.Spec):
                 return "C01-leading-underscore-name-unexported"
             if code == 4 and ("template=slim" in be or "no_default_serdes" in be) and "imported and not used" in errs:
                 return "C01-slim-template-unused-import"
+            if code == 4 and "field and method with the same name InitDefault" in errs and not re.search(r"same name (?!InitDefault)", errs):
+                return "C01-field-collides-with-unreserved-method:InitDefault"
             texts = " ".join((case.get("program") or {}).get("files", {}).values())
             if code == 4 and re.search(r"duplicate case 0|ReadField0 already declared|duplicate key 0", errs) and re.search(r"throws\s*\(\s*[^)]*\b0\s*:", texts):
                 return "C01-throws-id-0-collides-with-success"
